@@ -320,7 +320,52 @@ class Interp:
             S = self.expr(k.value, S, sc)
         return S
 
+    def _bound_alias(self, e: ast.Call, sc):
+        """self.<x>(...) where <x> is assigned exactly once, in the constructor, a bound method `self.<y>.<m>`: the call is
+        `self.<y>.<m>(...)`.  (Re-assignments of <y> that leave the alias behind are the business of the derived-state rule.)"""
+        f = e.func
+        if not (isinstance(f, ast.Attribute) and sc.is_self(f.value) and sc.cls is not None):
+            return None
+        cache = getattr(self, "_alias_cache", None)
+        if cache is None:
+            cache = self._alias_cache = {}
+        key = (sc.cls.qual, f.attr)
+        if key not in cache:
+            found, n_stores = None, 0
+            for k in sc.cls.repo_mro():
+                if k.is_external:
+                    continue
+                for m in k.methods.values():
+                    if m.self_name is None:
+                        continue
+                    for n in ast.walk(m.node):
+                        if isinstance(n, ast.Attribute) and isinstance(n.ctx, ast.Store) and n.attr == f.attr \
+                                and isinstance(n.value, ast.Name) and n.value.id == m.self_name:
+                            n_stores += 1
+                            st = getattr(n, "_parent", None)
+                            v = getattr(st, "value", None)
+                            if m.name == "__init__" and isinstance(st, ast.Assign) and len(st.targets) == 1 and isinstance(v, ast.Attribute) \
+                                    and isinstance(v.value, ast.Attribute) and isinstance(v.value.value, ast.Name) \
+                                    and v.value.value.id == m.self_name:
+                                found = (v.value.attr, v.attr)
+            cache[key] = found if n_stores == 1 else None
+        hit = cache[key]
+        if hit is None or sc.cls.methods.get(f.attr) is not None:
+            return None
+        new = ast.Call(func=ast.Attribute(value=ast.Attribute(value=f.value, attr=hit[0], ctx=ast.Load()), attr=hit[1], ctx=ast.Load()),
+                       args=e.args, keywords=e.keywords)
+        ast.copy_location(new, e)
+        ast.copy_location(new.func, e.func)
+        ast.copy_location(new.func.value, e.func)
+        new._parent = getattr(e, "_parent", None)
+        new.func._parent = new
+        new.func.value._parent = new.func
+        return new
+
     def e_Call(self, e: ast.Call, S, sc):
+        alias = self._bound_alias(e, sc)
+        if alias is not None:
+            e = alias
         ctx = Ctx(self, sc)
         # consuming builtins over a generator call / typed iterable: list(gen()), "".join(gen())
         fname = e.func.id if isinstance(e.func, ast.Name) else None
